@@ -330,7 +330,7 @@ def family_grammar(rng, costs=(0, 5)):
     """Hand-shaped ambiguous families with random translation specifications:
     split families (several nonterminals in one rule, each with several lengths),
     shared-subtree families, operator families, nullable families."""
-    fam = rng.choice(['split', 'split', 'shared', 'ops', 'nullable', 'chains', 'chains', 'stmts', 'stmts'])
+    fam = rng.choice(['split', 'split', 'shared', 'ops', 'nullable', 'chains', 'chains', 'stmts', 'stmts', 'deepchains', 'deepchains'])
     nid = [0]
 
     def an():
@@ -432,6 +432,33 @@ def family_grammar(rng, costs=(0, 5)):
         # keep L first (start symbol)
         rules.sort(key=lambda r: 0 if r[0] == 'L' and r[1] == ['X'] else 1)
         terms = [('t', 116), ('u', 117)] + [(x, ord(x)) for x in sufs]
+    elif fam == 'deepchains':
+        # one leaf reached through unit chains of different depth, the alternatives told apart by
+        # the terminal that follows: FIRST/FOLLOW and dynamic contexts need several passes,
+        # whatever the order in which the rules are written
+        d = rng.randint(2, 5)
+        ns = ['N%d' % i for i in range(d + 1)]
+        sufs = ['a', 'b', 'c', 'd', 'e']
+        lv = rng.sample(range(d + 1), rng.randint(2, min(d + 1, 4)))
+        top = 'S'
+        tops = [(top, [ns[i]] + [sufs[j]] * rng.choice([1, 1, 2]), rng.choice([None, an()]), cst(), [0]) for j, i in enumerate(lv)]
+        if rng.random() < 0.3:
+            tops.append((top, [rng.choice(['x', 'y']), ns[rng.randrange(d + 1)], 'x'], an(), cst(), [1]))
+        chain = [(ns[i], [ns[i + 1]], None, 0, rng.choice([[0], [0], None])) for i in range(d)]
+        leaf = [(ns[d], ['t'], rng.choice([None, an()]), 0, [0])]
+        if rng.random() < 0.4:
+            leaf.append((ns[rng.randrange(d + 1)], ['t', 'u'], an(), cst(), [0, 1]))
+        rest = chain + leaf
+        o = rng.choice(['topdown', 'bottomup', 'shuffle'])
+        if o == 'bottomup':
+            rest.reverse()
+        elif o == 'shuffle':
+            rng.shuffle(rest)
+        rng.shuffle(tops)
+        rules = tops[:1] + (tops[1:] + rest if rng.random() < 0.5 else rest + tops[1:])
+        if rng.random() < 0.4:
+            rules = [('L', ['S'], None, 0, [0]), ('L', ['L', 'S'], an(), cst(), [0, 1])] + rules
+        terms = [('t', 116), ('u', 117), ('x', 120), ('y', 121)] + [(x, ord(x)) for x in sufs]
     else:
         rules.append(('S', ['a', 'O'] + rng.choice([[], ['O']]), an(), cst(), perm_tr(2 + 0, 2)))
         rules.append(('O', ['P'], None, 0, [0]))
